@@ -5,5 +5,6 @@ CONSTANTS
   MaxTok = 4
   MaxFrag = 3
   EmitLen = 4
+  EmitFrag = 3
   EmitTok = 3
   Bounded = TRUE
